@@ -15,6 +15,9 @@
 (* Kind = "rpc":      txwatcher.BlockchainRpcTxWatcher (bitcoind / elementsd) *)
 (* Kind = "electrum": lwk.electrumTxWatcher + electrum.liquidBlockHeader-     *)
 (*                    Subscriber + observeOpeningTX / observeCSVTX            *)
+(* The RPC watcher modelled here is the INTENDED one: its depth test does not *)
+(* wrap around (Decide); the real observationLoop subtracts in uint32, which  *)
+(* the conformance run reports (known finding, findings/watcher.json).        *)
 (* The two kinds differ legitimately (documented at the actions): the RPC     *)
 (* watcher evaluates a registration when it is added and polls the CSV list on*)
 (* every tick; the Electrum watcher evaluates only on a header with a higher  *)
@@ -88,7 +91,7 @@ Now         == {Snap(chain)}
 -----------------------------------------------------------------------------
 Idle == c.pc = "idle" /\ v.pc = "idle"
 C0 == [st |-> "none", start |-> 0, last |-> 0, pc |-> "idle", hn |-> 0, hr |-> 0, bh |-> 0, fs |-> 0, th |-> 0,
-       seen |-> {}, stale |-> FALSE]
+       seen |-> {}, stale |-> FALSE, ord |-> 0]
 V0 == [st |-> "none", pc |-> "idle", hn |-> 0, seen |-> {}, stale |-> FALSE]
 
 Init == /\ \E t0 \in 0..L0, b0 \in BOOLEAN :
@@ -108,7 +111,7 @@ Tok(t) == sched' = Append(sched, t)
 ChainStep(ch) == /\ chain' = ch
                  /\ polls' = {[p EXCEPT !.seen = @ \cup {Snap(ch)}] : p \in polls}
                  /\ c' = IF c.pc # "idle" THEN [c EXCEPT !.seen = @ \cup {Snap(ch)}] ELSE c
-                 /\ v' = IF v.pc # "idle" \/ c.pc \in {"e1", "e2"} THEN [v EXCEPT !.seen = @ \cup {Snap(ch)}] ELSE v
+                 /\ v' = IF v.pc # "idle" THEN [v EXCEPT !.seen = @ \cup {Snap(ch)}] ELSE v
 EnvFrame == UNCHANGED <<wh, rep>>
 NoChain == UNCHANGED <<chain, polls, c, v>>
 
@@ -260,8 +263,8 @@ RpcC5(f) == \* GetRawtransactionWithBlockHash(tx, th): any known block answers, 
        ELSE Decide(c, c.fs, f)
     /\ EnvKeep /\ UNCHANGED <<polls, wh, v>>
 
-RpcC6(f) == \* IsTxInRange(start, hr), modelled as one answer
-    /\ c.pc = "c6" /\ UseFault(f)
+RpcC6(f) == \* IsTxInRange(start, hr): 2 calls per block, modelled as one answer (fresh, or failing at its first call)
+    /\ c.pc = "c6" /\ f # "stale" /\ UseFault(f)
     /\ LET vw == View(f)
            r == [c EXCEPT !.stale = @ \/ f = "stale"]
            hit == {i \in c.start..c.hr : i >= 1 /\ i <= Len(vw) /\ vw[i].tx} IN
@@ -298,9 +301,11 @@ RpcV1(f) == \* GetTxOut
 
 -----------------------------------------------------------------------------
 (* Electrum watcher: header -> acceptBlockHeight -> subscriber.Update -> observers *)
+(* Update evaluates the registered observers one after the other in the order *)
+(* of registration (pc "q": waiting for its turn in the current Update).       *)
 AddC_El(s) ==
     /\ Kind = "electrum" /\ Idle /\ c.st = "none"
-    /\ c' = [C0 EXCEPT !.st = "live", !.start = s]
+    /\ c' = [C0 EXCEPT !.st = "live", !.start = s, !.ord = IF v.st = "none" THEN 1 ELSE 2]
     /\ Tok([a |-> "addc", start |-> s])
     /\ EnvKeep /\ UNCHANGED <<bud, polls, wh, v, rep>>
 AddV_El ==
@@ -309,31 +314,40 @@ AddV_El ==
     /\ Tok([a |-> "addv"])
     /\ EnvKeep /\ UNCHANGED <<bud, polls, wh, c, rep>>
 
-VPrep(p)  == IF v.st = "live" THEN [v EXCEPT !.hn = p.h, !.seen = p.seen, !.stale = p.st] ELSE v
-VStart(p) == IF v.st = "live" THEN [VPrep(p) EXCEPT !.pc = "e3"] ELSE v
+CPrep(p) == [c EXCEPT !.hn = p.h, !.last = p.h, !.seen = p.seen, !.stale = p.st]
+VPrep(p) == [v EXCEPT !.hn = p.h, !.seen = p.seen, !.stale = p.st]
+\* observeOpeningTX.Callback fails the registration before asking the server: tip below start is a failure, too
+CFailNow(r) == r.hn < r.start \/ r.hn >= r.start + Window
+FailRep(r, cb) == [reg |-> "c", res |-> "failed", h |-> r.hn, ok |-> (cb = "ok"),
+                   just |-> JustConf(r.seen, r.stale, r.start)]
+\* a callback that returns an error keeps the observer registered
+CAfterFail(r, cb) == IF cb = "ok" THEN CDone(r) ELSE CIdle(r)
+AfterC(vv) == IF vv.pc = "q" THEN [vv EXCEPT !.pc = "e3"] ELSE vv
 
 Deliver_El(p) ==
     /\ Kind = "electrum" /\ Idle
     /\ polls' = polls \ {p}
-    /\ IF wh > 0 /\ p.h <= wh
-       THEN /\ UNCHANGED <<wh, c, v, rep>> /\ Tok([a |-> "deliver", p |-> p.id, cb |-> ""])
+    /\ LET cl == c.st = "live"
+           vl == v.st = "live"
+           old == wh > 0 /\ p.h <= wh          \* acceptBlockHeight: not a higher height, ignored
+           tok == [a |-> "deliver", p |-> p.id, cb |-> ""] IN
+       IF old \/ (~cl /\ ~vl)
+       THEN /\ wh' = IF old THEN wh ELSE p.h
+            /\ UNCHANGED <<c, v, rep>> /\ Tok(tok)
        ELSE /\ wh' = p.h
-            /\ IF c.st # "live" THEN /\ c' = c /\ v' = VStart(p) /\ UNCHANGED rep
-                                     /\ Tok([a |-> "deliver", p |-> p.id, cb |-> ""])
-               ELSE IF p.h < c.start \/ p.h >= c.start + Window     \* tip below start is a failure, too
-               THEN \E cb \in CbRes :
-                       /\ rep' = Append(rep, [reg |-> "c", res |-> "failed", h |-> p.h, ok |-> (cb = "ok"),
-                                              just |-> JustConf(p.seen, p.st, c.start)])
-                       /\ c' = IF cb = "ok" THEN CDone(c) ELSE [c EXCEPT !.last = p.h]
-                       /\ v' = VStart(p)
-                       /\ Tok([a |-> "deliver", p |-> p.id, cb |-> cb])
-               ELSE /\ c' = [c EXCEPT !.pc = "e1", !.hn = p.h, !.last = p.h, !.seen = p.seen, !.stale = p.st]
-                    /\ v' = VPrep(p)                                 \* evaluated after c
-                    /\ UNCHANGED rep /\ Tok([a |-> "deliver", p |-> p.id, cb |-> ""])
+            /\ IF cl /\ (~vl \/ c.ord = 1)
+               THEN LET r == CPrep(p)
+                        vq == IF vl THEN [VPrep(p) EXCEPT !.pc = "q"] ELSE v IN
+                    IF CFailNow(r)
+                    THEN \E cb \in CbRes :
+                            /\ rep' = Append(rep, FailRep(r, cb))
+                            /\ c' = CAfterFail(r, cb) /\ v' = AfterC(vq)
+                            /\ Tok([tok EXCEPT !.cb = cb])
+                    ELSE /\ c' = [r EXCEPT !.pc = "e1"] /\ v' = vq /\ UNCHANGED rep /\ Tok(tok)
+               ELSE /\ v' = [VPrep(p) EXCEPT !.pc = "e3"]
+                    /\ c' = IF cl THEN [CPrep(p) EXCEPT !.pc = "q"] ELSE c
+                    /\ UNCHANGED rep /\ Tok(tok)
     /\ EnvKeep /\ UNCHANGED bud
-
-\* c finished its turn in Update: v is next
-NextV == IF v.st = "live" THEN [v EXCEPT !.pc = "e3"] ELSE v
 
 RpcE1(f) == \* GetHistory for c
     /\ c.pc = "e1" /\ UseFault(f)
@@ -343,30 +357,35 @@ RpcE1(f) == \* GetHistory for c
        /\ UNCHANGED rep /\ Tok([a |-> "rpc", f |-> f, cb |-> ""])
        /\ IF f # "err" /\ bcast /\ txh > 0 /\ txh <= c.hn /\ c.hn - txh + 1 >= Confs
           THEN c' = [r EXCEPT !.pc = "e2"] /\ v' = v
-          ELSE c' = CIdle(r) /\ v' = NextV
+          ELSE c' = CIdle(r) /\ v' = AfterC(v)
     /\ EnvKeep /\ UNCHANGED <<polls, wh>>
 
 RpcE2(f) == \* GetRawTransaction
     /\ c.pc = "e2" /\ f # "stale" /\ UseFault(f)
-    /\ IF f = "err" THEN /\ c' = CIdle(c) /\ v' = NextV /\ UNCHANGED rep /\ Tok([a |-> "rpc", f |-> f, cb |-> ""])
+    /\ IF f = "err" THEN /\ c' = CIdle(c) /\ v' = AfterC(v) /\ UNCHANGED rep /\ Tok([a |-> "rpc", f |-> f, cb |-> ""])
        ELSE \E cb \in CbRes :
                /\ RepConf("confirmed", cb, c.stale)
                /\ c' = IF cb = "ok" THEN CDone(c) ELSE CIdle(c)
-               /\ v' = NextV
+               /\ v' = AfterC(v)
                /\ Tok([a |-> "rpc", f |-> f, cb |-> cb])
     /\ EnvKeep /\ UNCHANGED <<polls, wh>>
 
-RpcE3(f) == \* GetHistory for v
-    /\ v.pc = "e3" /\ c.pc = "idle" /\ UseFault(f)
+RpcE3(f) == \* GetHistory for v; if c waits for its turn it starts (and may fail at once) in the same step
+    /\ v.pc = "e3" /\ c.pc \in {"idle", "q"} /\ UseFault(f)
     /\ LET vw == View(f)
-           txh == TxH(vw) IN
-       IF f # "err" /\ bcast /\ txh > 0 /\ txh <= v.hn /\ v.hn - txh + 1 >= Csv
-       THEN \E cb \in CbRes :
-               /\ RepCsv(cb, v.stale \/ f = "stale")
-               /\ v' = IF cb = "ok" THEN VDone(v) ELSE VIdle(v)
-               /\ Tok([a |-> "rpc", f |-> f, cb |-> cb])
-       ELSE /\ v' = VIdle(v) /\ UNCHANGED rep /\ Tok([a |-> "rpc", f |-> f, cb |-> ""])
-    /\ EnvKeep /\ UNCHANGED <<polls, wh, c>>
+           txh == TxH(vw)
+           hit == f # "err" /\ bcast /\ txh > 0 /\ txh <= v.hn /\ v.hn - txh + 1 >= Csv
+           cq == c.pc = "q"
+           cfail == cq /\ CFailNow(c) IN
+       \E cb \in (IF hit THEN CbRes ELSE {""}), cb2 \in (IF cfail THEN CbRes ELSE {""}) :
+          /\ v' = IF hit /\ cb = "ok" THEN VDone(v) ELSE VIdle(v)
+          /\ c' = IF cfail THEN CAfterFail(c, cb2) ELSE IF cq THEN [c EXCEPT !.pc = "e1"] ELSE c
+          /\ rep' = rep \o (IF hit THEN <<[reg |-> "v", res |-> "csv", h |-> 0, ok |-> (cb = "ok"),
+                                           just |-> JustCsv(v.seen, v.stale \/ f = "stale")]>> ELSE <<>>)
+                        \o (IF cfail THEN <<FailRep(c, cb2)>> ELSE <<>>)
+          /\ sched' = sched \o <<[a |-> "rpc", f |-> f, cb |-> cb]>>
+                            \o (IF cfail THEN <<[a |-> "cb", cb |-> cb2]>> ELSE <<>>)
+    /\ EnvKeep /\ UNCHANGED <<polls, wh>>
 
 -----------------------------------------------------------------------------
 Starts == {Len(chain) - 1, Len(chain), Len(chain) + 1}
@@ -395,7 +414,7 @@ P_C20b == (c.st = "live" /\ c.pc = "idle" /\ c.last >= c.start + Window)
 P_C20c == \A i \in 1..Len(rep) : rep[i].res = "csv" => rep[i].just
 \* d: nothing is reported for a registration after a report whose callback returned nil
 P_C20d == \A i, j \in 1..Len(rep) : (i < j /\ rep[i].reg = rep[j].reg) => ~rep[i].ok
-TypeOK == /\ c.pc \in {"idle", "k0", "c1", "c2", "c3", "c4", "c5", "c6", "e1", "e2"}
-          /\ v.pc \in {"idle", "v1", "e3"}
+TypeOK == /\ c.pc \in {"idle", "k0", "c1", "c2", "c3", "c4", "c5", "c6", "e1", "e2", "q"}
+          /\ v.pc \in {"idle", "v1", "e3", "q"}
           /\ Cardinality({i \in 1..Len(chain) : chain[i].tx}) <= 1
 =============================================================================
